@@ -90,6 +90,8 @@ func (m *DefaultInterfaceMocker) Apply(callback interface{}) {
 		panic("method is empty")
 	}
 	m.applyByIFaceMethod(m.ctx, m.iFace, m.method, callback, nil)
+	// Apply 会覆盖之前设定的 When 条件和 Return: 丢弃旧的 When, 之后的 When/Return 会重新构建并应用
+	m.when = nil
 }
 
 // As 将接口方法 mock 为实际的接收体方法
